@@ -74,6 +74,16 @@ def gen(t, tier):
         # requests of the server keep cleaning the lock directory (cleanup_lockdir) while the contenders lock and unlock
         sc['tilelocker'] = {'cleanups': t.randint(1, 6), 'gap': t.pick([0, 0.001, 0.02])}
         sc['perm'] = None
+    if sc['kind'] == 'semlock' and t.chance(0.3):
+        # the semaphore's slot files live in the lock directory that TileLocker keeps cleaning (the default layout); a slot may
+        # be held for longer than the age at which lock files count as left-overs (a slow render, a dripping upstream)
+        sc['tilelocker'] = {'cleanups': t.randint(1, 6), 'gap': t.pick([0.02, 5.0, 40.0])}
+        sc['perm'] = None
+        sc['eager_time'] = False
+        for c in sc['contenders']:
+            c['step'] = 0.5
+            c['delay'] = t.pick([0, 0, 85.0])       # a late-comer: until it arrives nobody polls (and thereby touches) the slot files
+            c['holds'] = [['s', t.pick([100.0, 100.0, 0.3])] if t.chance(0.5) else h for h in c['holds']]
     if t.chance(0.2):
         # one flock() call of a contender fails for a reason other than "somebody else holds it" (no lock records left in the
         # kernel, an interrupted call, an I/O error of a network file system): that attempt did not take the lock
@@ -137,7 +147,9 @@ def run(sc, tape):
     n_slots = sc['n']
     style = 'sem%d' % n_slots if sc['kind'] == 'semlock' else ('remove' if sc['remove'] else 'keep')
     path = PATH
-    if sc.get('tilelocker'):
+    if sc.get('tilelocker') and sc['kind'] == 'semlock':
+        style = 'sem%d-cleaned' % n_slots
+    elif sc.get('tilelocker'):
         from mapproxy.cache.base import TileLocker
         from mapproxy.cache.tile import Tile
         style = 'tilelocker'
@@ -156,7 +168,7 @@ def run(sc, tape):
     def make_lock(c):
         if sc['kind'] == 'semlock':
             return SemLock(path, n_slots, timeout=c['timeout'], step=c['step'], file_permissions=sc['perm'])
-        if sc.get('tilelocker'):
+        if sc.get('tilelocker') and sc['kind'] != 'semlock':
             return TileLocker(LOCKDIR, c['timeout'], 'cid').lock(Tile((1, 1, 1)))
         return FileLock(path, timeout=c['timeout'], step=c['step'], remove_on_unlock=sc['remove'],
                         file_permissions=sc['perm'])
@@ -165,6 +177,9 @@ def run(sc, tape):
         def fn():
             tid = i
             lock = None
+            if c.get('delay'):
+                import time
+                time.sleep(c['delay'])
             for h in c['holds']:
                 if lock is None or not sc['reuse']:
                     lock = make_lock(c)
